@@ -58,7 +58,7 @@ func c06Invariants(o *harness.Obs) (fp, what string) {
 func init() {
 	Register(&Check{ID: "C06", Level: "model_checking", Run: runC06, Replay: func(c *Ctx, w *Witness) (string, string) {
 		t := c.Pool.RunOne(w.Job)
-		fp, what := c06Trace(t, w.Expected)
+		fp, what := c06TraceKM(t, w.Expected, w.Observed)
 		return fmt.Sprintf("keys: %s\n%s\n%s", ShowKeys(w.Job.Calls[0]), what, jsonString(LastCall(t))), fp
 	}})
 }
@@ -66,6 +66,13 @@ func init() {
 // c06Trace evaluates the invariants on every recorded wait and on return. movement is
 // the name of the movement command delivered last ("" if the last action is none).
 func c06Trace(t *harness.Trace, movement string) (fp, what string) {
+	return c06TraceKM(t, movement, "")
+}
+
+// c06TraceKM: km (when not empty) is the main keymap in which the movement command is bound: when the
+// path has switched to another main keymap (a data key that is a command in vi command mode, like a),
+// the probe sequence is typed text there and nothing is judged about the movement.
+func c06TraceKM(t *harness.Trace, movement, km string) (fp, what string) {
 	call := LastCall(t)
 	for i, w := range call.Waits {
 		if w.Obs == nil {
@@ -93,7 +100,7 @@ func c06Trace(t *harness.Trace, movement string) (fp, what string) {
 		}
 		// (a command delivered while another one waits for its argument key is that argument, and the
 		// rest of its keys are typed text: only commands dispatched by the main loop are judged)
-		if first != nil && last != nil && first.Kind == "main" && first.Local == "" && last.Local == "" && first.Line != last.Line {
+		if first != nil && last != nil && first.Kind == "main" && (km == "" || first.Main == km) && first.Local == "" && last.Local == "" && first.Line != last.Line {
 			return "movement-edits-buffer/" + movement, fmt.Sprintf("%s changed the buffer from %q to %q", movement, first.Line, last.Line)
 		}
 	}
@@ -193,7 +200,8 @@ func runC06(c *Ctx) {
 				c.Sample(map[string]any{"not_judged": o, "site": LastCall(t).Site, "keys": ShowKeys(job.Calls[0])})
 				return
 			}
-			fp, what := c06Trace(t, mv)
+			km := strings.SplitN(sc.Name, "/", 2)[0]
+			fp, what := c06TraceKM(t, mv, km)
 			if fp == "" {
 				c.Outcome("ok/" + LastCall(t).Outcome)
 				return
@@ -205,8 +213,8 @@ func runC06(c *Ctx) {
 				return
 			}
 			jj := *job
-			c.Violate(Witness{Fingerprint: fp, What: desc, Engine: "session", Job: &jj, Expected: mv}, func() string {
-				f, _ := c06Trace(c.Pool.RunOne(&jj), mv)
+			c.Violate(Witness{Fingerprint: fp, What: desc, Engine: "session", Job: &jj, Expected: mv, Observed: km}, func() string {
+				f, _ := c06TraceKM(c.Pool.RunOne(&jj), mv, km)
 				return f
 			})
 		}
